@@ -284,6 +284,11 @@ func classifyA(c *Case) (bool, []string) {
 		if st.Clears > 0 {
 			cls = append(cls, "lzw-table-reset")
 		}
+		for _, l := range []int{1024, 2048, 3072} {
+			if st.MaxString >= l {
+				cls = append(cls, fmt.Sprintf("lzw/dict-string>=%d", l))
+			}
+		}
 	}
 	if spec.Kind == fg.CCITTFax {
 		if spec.ByteAlign {
